@@ -484,26 +484,25 @@ static size_t safec_ftoa(out_fct_type out, const char *funcname, char *buffer,
                                    100000000, 1000000000};
     const unsigned maxprec = 9U;
 
-    // test for special values
-    if (value != value)
-        return safec_out_rev(out, buffer, idx, maxlen,
-                             (flags & FLAGS_UPPERCASE) ? "NAN" : "nan", 3,
-                             width, flags);
-    if (isinf(value)) {
-        if (value < 0)
-            // reverse of -inf
-            return safec_out_rev(out, buffer, idx, maxlen,
-                                 (flags & FLAGS_UPPERCASE) ? "FNI-" : "fni-", 4,
-                                 width, flags);
-        else
-            // reverse of inf
-            return safec_out_rev(out, buffer, idx, maxlen,
-                                 (flags & FLAGS_PLUS)
-                                     ? (flags & FLAGS_UPPERCASE) ? "FNI+"
-                                                                 : "fni+"
-                                 : (flags & FLAGS_UPPERCASE) ? "FNI"
-                                                             : "fni",
-                                 (flags & FLAGS_PLUS) ? 4 : 3, width, flags);
+    // test for special values: "nan" / "inf" with the sign and the flags
+    // '+' and ' ' as for a number, but never zero-padded
+    if ((value != value) || isinf(value)) {
+        char sbuf[4];
+        size_t slen = 0;
+        const char *txt = (value != value)
+                              ? ((flags & FLAGS_UPPERCASE) ? "NAN" : "nan")
+                              : ((flags & FLAGS_UPPERCASE) ? "FNI" : "fni");
+        sbuf[slen++] = txt[0];
+        sbuf[slen++] = txt[1];
+        sbuf[slen++] = txt[2];
+        if (value < 0) // a negative infinity; the sign bit of a nan is not shown
+            sbuf[slen++] = '-';
+        else if (flags & FLAGS_PLUS)
+            sbuf[slen++] = '+';
+        else if (flags & FLAGS_SPACE)
+            sbuf[slen++] = ' ';
+        return safec_out_rev(out, buffer, idx, maxlen, sbuf, slen, width,
+                             flags & ~FLAGS_ZEROPAD);
     }
     // test for very large values
     // standard printf behavior is to print EVERY whole number digit -- which
@@ -564,6 +563,10 @@ static size_t safec_ftoa(out_fct_type out, const char *funcname, char *buffer,
             // exactly 0.5 and ODD, then round up
             // 1.5 -> 2, but 2.5 -> 2
             ++whole;
+        }
+        // the alternate form always has the decimal point
+        if ((flags & FLAGS_HASH) && len < PRINTF_FTOA_BUFFER_SIZE) {
+            buf[len++] = '.';
         }
     } else {
         unsigned int count = prec;
